@@ -275,8 +275,10 @@ class Ctx:
             "wall_s": round(time.time() - self.t0, 2), "violations": len(self.violations),
             "known_findings_hit": [k for k, _ in self.known_hits],
         }
-        os.makedirs(os.path.join(VERIF, "evidence"), exist_ok=True)
-        with open(os.path.join(VERIF, "evidence", f"{self.pid}.json"), "w") as f:
+        # seeded-change experiments (bin/seedtest) write their evidence elsewhere: evidence/ only ever holds runs on the real tree
+        evdir = os.environ.get("VERIF_EVIDENCE_DIR", os.path.join(VERIF, "evidence"))
+        os.makedirs(evdir, exist_ok=True)
+        with open(os.path.join(evdir, f"{self.pid}.json"), "w") as f:
             json.dump(ev, f, indent=1)
         seen = set()
         for sig, desc, path, found in self.violations:
